@@ -133,3 +133,35 @@ fn f08b_memo_hit_replays_error_at_its_own_position() {
     let d = |r: &ParseResult<&str, Rich<char>>| r.errors().map(|e| format!("{:?}", e)).collect::<Vec<_>>();
     assert_eq!(d(&plain), d(&memo), "a memo hit reports the failure at the wrong position");
 }
+
+// #5 (C19, rule MAYBEUNINIT): `group([p; N])` leaks the outputs already produced when a later
+// element fails (the initialised prefix of the MaybeUninit array is never dropped).
+#[test]
+fn f05_group_array_drops_prefix_on_failure() {
+    use std::sync::atomic::{AtomicIsize, Ordering};
+    static LIVE: AtomicIsize = AtomicIsize::new(0);
+    struct D;
+    impl D {
+        fn new() -> D {
+            LIVE.fetch_add(1, Ordering::SeqCst);
+            D
+        }
+    }
+    impl Drop for D {
+        fn drop(&mut self) {
+            LIVE.fetch_sub(1, Ordering::SeqCst);
+        }
+    }
+    let mk = |c: char| just::<_, &str, extra::Default>(c).map(|_| D::new()).boxed();
+    let p = group([mk('a'), mk('b'), mk('c')]);
+    // third element fails: the two values already produced must be dropped by the time parse returns
+    let r = p.parse("abx");
+    assert!(r.has_errors());
+    drop(r);
+    assert_eq!(LIVE.load(Ordering::SeqCst), 0, "values produced by group([..;3]) before the failure were leaked");
+    // success path: all three handed to the caller, then dropped by the caller
+    let r = p.parse("abc");
+    assert!(!r.has_errors());
+    drop(r);
+    assert_eq!(LIVE.load(Ordering::SeqCst), 0);
+}
